@@ -63,7 +63,14 @@ def run_k(ctx, kres):
     tables = gen.load_tables()
     n = 60 if ctx.quick else 1200
     traces = [Trace("f%d" % i, find_history(ctx.seed * 104729 + i, tables)) for i in range(n)]
-    return k_suite(ctx, kres, "K19-populations", traces, in_projection)
+    v = k_suite(ctx, kres, "K19-populations", traces, in_projection)
+    # session objects (created and COPIED) across every short order of opens / closes / logins: a search from a fresh session returns exactly the objects whose session is
+    # still open - a closed session's objects never come back, a live session's objects never vanish (the C11 scope, judged on the search results)
+    from .. import gen2
+    st, nst = gen2.c11_scope(ctx.seed, 4, sample=4000 if ctx.quick else None)
+    def proj2(m): return m["op"] in ("find", "findinit") and m["cat"] in ("nums", "rvclass")
+    v += k_suite(ctx, kres, "K19-session-object-scope", [Trace("scope%d" % i, t) for i, t in enumerate(st)], proj2, shrink_budget=60, rank=lambda m: m["line"])
+    return v
 
 
 def judge(ctx, results):
